@@ -47,7 +47,7 @@ PROP = {'gen': ['base64'],
  'technique': 'Coq proof (induction over chunking and over histories, parser/printer round trip, refinement to a terminal-side store) '
               '+ regenerated constants + model/implementation correspondence',
  'design_ref': 'DESIGN.md 6.11',
- 'n_quick': 300,
+ 'n_quick': 288,
  'n_thorough': 6000,
  'shard': 25,
  'level': 'proof',
